@@ -1,18 +1,23 @@
 """C16 -- queue policies conserve recipients and content.
 
-Exhaustive: every recipient list of length 0..4 over six addresses and 0..3 over seven (duplicates allowed)
-x every chain (order and repetition) of up to 2 (quick) / 3 (thorough) queue policies out of eleven
-x four (two where no policy could tell them apart) shapes of the original header block -- each through a REAL ``slimta.queue.Queue`` (relay=None)
-and its real ``enqueue()`` on the virtual gevent loop, observed at ``QueueStorage.write``.
+Exhaustive: every recipient list of length 0..4 over six addresses and 0..3 over seven (duplicates
+allowed) x every chain (order and repetition) of up to 2 (quick) / 3 (thorough) queue policies out of
+eleven x up to four shapes of the original header block (see ``header_variants_for``) -- each through
+a REAL ``slimta.queue.Queue`` (relay=None) and its real ``enqueue()`` on the virtual gevent loop,
+observed at ``QueueStorage.write``.
 
 The oracle is a boring reference of the policies on plain recipient lists (``ref_chain``), composed
 breadth first (the library recurses depth first), written without looking at the library objects.
 What is compared (and nothing more):
   1. the written envelopes carry the reference recipients: same multiset, same grouping into
-     envelopes (order of envelopes and order inside a group are not compared);
+     envelopes (order of envelopes and order inside a group are not compared; the grouping is what
+     makes a "recipient split" / "domain split" of the property one: one envelope per recipient,
+     one per case-insensitive domain and one per domainless address);
      collapsing a duplicate of the original list is treated as don't-care (the property is read
      strictly -- "each recipient exactly once" -- only for losing, inventing or altering addresses);
-  2. sender, body bytes and the original header fields (in order) of every written envelope;
+  2. sender, body bytes and the original header fields (in order) of every written envelope
+     (body = the ``message`` attribute, snapshot at write(); flatten()[1], which returns that
+     attribute, is additionally called on the last written envelope of every header-variant-0 case);
   3. no two written envelopes are the same object or share ``recipients`` / ``headers`` state
      (mutation probe on the actual objects handed to ``write``);
   4. Date / Message-Id exist exactly once when they were present or a policy adds them, and not
@@ -36,7 +41,7 @@ from slimta.policy.split import RecipientSplit, RecipientDomainSplit
 from slimta.queue import Queue, QueueStorage
 
 from engine.core import Chooser, HarnessError
-from engine.result import Result, b2s
+from engine.result import Result
 from engine.vloop import World
 
 PROPERTY = 'C16'
@@ -78,8 +83,9 @@ def BOUNDS(tier):
             'recipient_alphabet_up_to_3': RCPT_ALPHABET + [THIRD_DOMAIN],
             'policies': POLICY_NAMES, 'max_chain': _max_chain(tier),
             'forward_rule_sets': {k: [list(r) for r in v] for k, v in FORWARD_RULES.items()},
-            'header_variants': [v[0] for v in HDR_VARIANTS],
-            'header_variants_for_chains_without_date_or_message_id_policy': ['none', 'both']}
+            'header_variants': {'none': 'every chain x every list',
+                                'both': 'chains of length <= 2 and all chains with a Date/Message-Id policy x every list',
+                                'date, message-id': 'chains with a Date/Message-Id policy x lists of length <= 2'}}
 
 
 RULE = ('every recipient list of length 0..4 over {a@x,b@x,c@y,c@Y,nodomain,e@} and of length 0..3 over that set '
@@ -87,12 +93,19 @@ RULE = ('every recipient list of length 0..4 over {a@x,b@x,c@y,c@Y,nodomain,e@} 
         'every sequence (order, repetition) of <= 2 (quick) / <= 3 (thorough) policies from {RecipientSplit, '
         'RecipientDomainSplit, Forward with rule set 1|2|3|4, AddDateHeader, AddMessageIdHeader, AddReceivedHeader, '
         'a policy returning [envelope], a policy returning [copy-with-the-rest, envelope-trimmed-to-first]} x '
-        '{no Date/Message-Id, DATE only, message-ID only, both} (only the first and last for chains without a '
-        'Date/Message-Id policy: nothing in such a chain can tell the others apart) through real Queue.enqueue; a case is '
-        'non-trivial when more than one envelope is written or a recipient is rewritten')
+        'original header block {without Date/Message-Id: always; with both: chains of length <= 2 and every chain '
+        'holding a Date/Message-Id policy; DATE only, message-ID only: chains holding such a policy x lists of length '
+        '<= 2 -- these policies never look at recipients and no other policy looks at headers} through real '
+        'Queue.enqueue; a case is '
+        'non-trivial when more than one envelope is written or a recipient is rewritten (counter cases_nontrivial); '
+        'distinct_nontrivial counts their distinct shapes (chain, list length, sizes of the written groups, number of '
+        'rewritten addresses), distinct_observations the distinct (group sizes, rewritten, header names) results')
 ASSUMPTIONS = ['a forwarding rule that matches but whose substitution result is the empty string is read as "does '
                'not rewrite" (the only such rule here is the last of its set, so continue/stop cannot differ)',
                'policies handing back a generator instead of a list are outside the quantifier',
+               'grouping is judged by the policy definitions: RecipientSplit = one envelope per recipient when there '
+               'are several; RecipientDomainSplit = one per lower-cased domain plus one per address without a domain, '
+               'when that makes more than one',
                'collapsing duplicates of the original recipient list would be accepted (never observed)',
                'recipients longer than 4 and chains longer than the bound behave like the enumerated ones']
 
@@ -268,7 +281,6 @@ def policy_class(name):
     return 'Forward' if name in FORWARD_RULES else name
 
 
-RCPT_POLICIES = ('RecipientSplit', 'RecipientDomainSplit', 'Forward', 'ReturnsInput', 'KeepFirstCopyRest')
 SPLITTERS = ('RecipientSplit', 'RecipientDomainSplit', 'KeepFirstCopyRest')
 REGROUPERS = SPLITTERS + ('ReturnsInput',)
 
@@ -524,10 +536,20 @@ def all_rcpt_lists():
             yield t
 
 
-def header_variants_for(chain):
-    if 'AddDateHeader' in chain or 'AddMessageIdHeader' in chain:
-        return list(range(len(HDR_VARIANTS)))
-    return [0, len(HDR_VARIANTS) - 1]
+def header_variants_for(chain, rcpts):
+    """Date / Message-Id handling is per envelope and never looks at the recipients, and a chain without
+    a Date/Message-Id policy cannot tell the variants apart, so the header dimension is crossed in
+    full only where it can matter:
+      'none'                always (variant 0);
+      'both'                for chains of length <= 2 and for every chain with a Date/Message-Id policy;
+      'date', 'message-id'  for chains with a Date/Message-Id policy x lists of length <= 2."""
+    relevant = 'AddDateHeader' in chain or 'AddMessageIdHeader' in chain
+    out = [0]
+    if relevant and len(rcpts) <= 2:
+        out += [1, 2]
+    if relevant or len(chain) <= 2:
+        out.append(3)
+    return out
 
 
 def run_chain(chain, cases, res, collect=None):
@@ -620,7 +642,7 @@ def run_config(cfg, tier, seed):
             if (idx * SLICES + j) % cfg['of'] != cfg['part']:
                 continue
             res.count('chain_slices')
-            run_chain(chain, [(rc, hv) for rc in lists[j::SLICES] for hv in header_variants_for(chain)], res)
+            run_chain(chain, [(rc, hv) for rc in lists[j::SLICES] for hv in header_variants_for(chain, rc)], res)
     return res.as_dict()
 
 
@@ -632,8 +654,10 @@ def vacuity(counters, tier):
               'cases_message_id_added', 'cases_received_added', 'alias_pairs_probed'):
         if not counters.get(k):
             problems.append('counter %s is 0' % k)
-    n_lists = len(list(all_rcpt_lists()))
-    want = n_lists * sum(len(header_variants_for(c)) for c in all_chains(_max_chain(tier)))
+    lists = list(all_rcpt_lists())
+    n_short = sum(1 for rc in lists if len(rc) <= 2)
+    want = sum(n_short * len(header_variants_for(c, ())) + (len(lists) - n_short) * len(header_variants_for(c, (0, 0, 0)))
+               for c in all_chains(_max_chain(tier)))
     if counters.get('cases') != want:
         problems.append('ran %r cases, the product is %d' % (counters.get('cases'), want))
     return problems
